@@ -45,9 +45,9 @@ PROPS = {
     "C07": dict(modules=["Rosmar.Properties.C07"], slices=[KV, KVD],
                 proj=P(rb=["row", "row.v", "row.cas", "row.exp", "row.x", "gwx", "gx"], results=True),
                 what="body, xattrs, expiry, CAS after every xattr / body write; macro expansions"),
-    "C08": dict(modules=["Rosmar.Properties.C08"], slices=[FEEDS, FEEDSD, MULTI], proj=P(rb=ROW, ev="*", results=True),
+    "C08": dict(modules=["Rosmar.Properties.C08", "Rosmar.Properties.Sched"], slices=[FEEDS, FEEDSD, MULTI], proj=P(rb=ROW, ev="*", results=True),
                 what="every live feed event after every operation, against the stored mutation"),
-    "C09": dict(modules=["Rosmar.Properties.C09"], slices=[FEEDS, FEEDSD, MULTI], proj=P(rb=ROW, ev="*", results=False),
+    "C09": dict(modules=["Rosmar.Properties.C09", "Rosmar.Properties.Sched"], slices=[FEEDS, FEEDSD, MULTI], proj=P(rb=ROW, ev="*", results=False),
                 what="dump feeds (backfill snapshots) from several start CAS values, against the stored rows"),
     "C11": dict(modules=["Rosmar.Properties.C11"], slices=[MULTI, MULTID], proj=V.proj_all,
                 what="every key of every collection re-read after every operation on any collection"),
@@ -96,7 +96,7 @@ def extra_C03(tier, seed, log):
     return cov, viols
 
 
-EXTRA = {"C14": extra_C14, "C03": extra_C03, "C13": extra_sched("C13")}
+EXTRA = {"C14": extra_C14, "C03": extra_C03, "C13": extra_sched("C13"), "C08": extra_sched("C08"), "C09": extra_sched("C09")}
 
 
 def load_lines(path):
